@@ -58,7 +58,7 @@ fn main() {
     let code = match prop.as_str() {
         "C04" => props::c04::run(&ctx),
         "C05" => props::c05::run(&ctx),
-        "C09" => props::c09::run(&ctx),
+        "C09" | "C15" => props::c09::run(&ctx),
         "C12" => props::c12::run(&ctx),
         "C13" => props::c13::run(&ctx),
         "C16" => props::c16::run(&ctx),
